@@ -531,6 +531,10 @@ class Model(object):
     def op_TICK(self):
         pass
 
+    def op_QUERY(self):
+        # read-only: look every name up and read every file, in every namespace (fills the lookup caches)
+        pass
+
     # -- views --------------------------------------------------------------
     def rr_path_of(self, iso_path):
         if iso_path == '/':
